@@ -58,6 +58,28 @@ def finalState (run : Run Mem Call V E) : WState Mem → List (Req Mem Call) →
   | s, [] => s
   | s, r :: rs => finalState run (wstep run s r).1 rs
 
+/-! ### the worker loop as found (before fix of defect D33)
+
+`except Exception` around the call: an exception that does not derive from `Exception`
+(`SystemExit` from `sys.exit()` inside the function, `KeyboardInterrupt`, `GeneratorExit`, a user
+subclass of `BaseException`) — `fatal e` — leaves the loop: the process ends without a reply. -/
+
+def wstepOld (fatal : E → Bool) (run : Run Mem Call V E) (s : WState Mem) : Req Mem Call → WState Mem × Option (Reply V E)
+  | .call c =>
+    if s.alive then
+      match run 0 s.ncalls s.mem c with
+      | .error e => if fatal e then ({ s with alive := false }, none) else ({ s with ncalls := s.ncalls + 1 }, some (.error e))
+      | .ok v => ({ s with ncalls := s.ncalls + 1 }, some (.result v))
+    else (s, none)
+  | r => wstep run s r
+
+def serveOld (fatal : E → Bool) (run : Run Mem Call V E) : WState Mem → List (Req Mem Call) → List (Reply V E)
+  | _, [] => []
+  | s, r :: rs =>
+    match wstepOld fatal run s r with
+    | (s', some rep) => rep :: serveOld fatal run s' rs
+    | (s', none) => serveOld fatal run s' rs
+
 /-! ### n ranks -/
 
 /-- Outcomes of the `n` ranks for one call. -/
